@@ -11,6 +11,12 @@ Reads
       (`tail.complete || message_count >= RECENT_MESSAGES_V1_LIMIT`, window call with RECENT_MESSAGES_V1_LIMIT)
   crates/ripd/src/continuities.rs     : the checkpoint visibility rule of the two *_for_compile_v1 truth loops
       (`*to_seq > from_seq` alone, or also `event.seq > from_seq`)  -> gen_ckpt_frame_rule
+  crates/ripd/src/continuities.rs     : WHAT the tail acceptance test counts: the expression bound by
+      `let message_count = …;` in load_context_compile_input_recent_messages_v1 -> gen_tail_count
+      (`message_events.iter().filter(|(seq, _)| *seq <= from_seq).count()` = CountUpToCut, the rule
+      c08_tail_path_rule_agrees needs; `message_events.len()` = CountAll, refuted by c08_tail_count_all_refuted; any
+      other expression is not guessed), that message_events are the message frames of tail.events, that from_seq in it
+      is the cut resolve_cutpoint_from_tail returned and that the accepted input is tail.events itself
 Emits coq/Gen/CompileConsts.v: gen_recent_limit, gen_max_refs : N, gen_ckpt_frame_rule, gen_ok_compile_consts : bool and the obligation
 gen_compile_consts_ok.  The C08 theorems hold for every limit / level count; the case files evaluate the model at
 the generated values.  A construct that is not found sets gen_ok_compile_consts := false (never guess)."""
@@ -67,9 +73,8 @@ def main():
     if not re.search(r"window_recent_messages_v1_from_message_id\s*\(\s*continuity_id\s*,\s*anchor_message_id\s*,\s*RECENT_MESSAGES_V1_LIMIT\s*,?\s*\)", co):
         ok = False
         notes.append("window call with RECENT_MESSAGES_V1_LIMIT not found")
-    # checkpoint visibility rule of the two *_for_compile_v1 truth loops: `to_seq <= from_seq` alone (S9) or also the
-    # checkpoint frame's own seq (`event.seq > from_seq` skipped).  Both loops must agree, else never guess.
-    def fn_body(src, name):
+    # ---- what the acceptance test of an incomplete tail counts
+    def fn_body0(src, name):
         m = re.search(r"fn\s+%s\s*\(" % name, src)
         if not m:
             return None
@@ -79,6 +84,42 @@ def main():
             depth += {"{": 1, "}": -1}.get(src[j], 0)
             j += 1
         return src[i:j]
+    tail_count = None
+    lb = fn_body0(co, "load_context_compile_input_recent_messages_v1")
+    if lb is None:
+        ok = False
+        notes.append("load_context_compile_input_recent_messages_v1 not found")
+    else:
+        flat = re.sub(r"\s+", "", lb)
+        exprs = re.findall(r"letmessage_count=([^;]*);", flat)
+        if len(exprs) != 1:
+            ok = False
+            notes.append("expected exactly one `let message_count = ...;` in the tail path, found %d" % len(exprs))
+        elif exprs[0] == "message_events.iter().filter(|(seq,_)|*seq<=from_seq).count()":
+            tail_count = "CountUpToCut"
+        elif exprs[0] == "message_events.len()":
+            tail_count = "CountAll"
+            notes.append("tail acceptance counts every message of the scanned tail (message_events.len()), not only those at or before the cut")
+        else:
+            ok = False
+            notes.append("tail acceptance counts an expression this extractor does not know: %s" % exprs[0])
+        # the names in that expression mean what the model takes them to mean
+        needs = [
+            (r"ifmatches!\(event\.kind,EventKind::ContinuityMessageAppended\{\.\.\}\)\{message_events\.push\(\(event\.seq,event\.id\.clone\(\)\)\);\}", "message_events = the message frames (seq, id)"),
+            (r"foreventin&tail\.events\{ifmatches!\(event\.kind,EventKind::ContinuityMessageAppended", "message_events are collected over tail.events"),
+            (r"ifletSome\(\(message_seq,from_seq\)\)=resolve_cutpoint_from_tail\(&message_events,head_seq,anchor_message_id\)\{", "from_seq = the cut resolve_cutpoint_from_tail returned"),
+            (r"continuity_events:tail\.events,from_seq:from_seq\.max\(message_seq\),", "the accepted input is tail.events with that cut"),
+        ]
+        for pat, what in needs:
+            if not re.search(pat, flat):
+                ok = False
+                notes.append("tail path: not found: %s" % what)
+        if len(re.findall(r"message_events\.push\(", flat)) != 1 or len(re.findall(r"letmutmessage_events", flat)) != 1:
+            ok = False
+            notes.append("tail path: message_events is filled in more than one place")
+    # checkpoint visibility rule of the two *_for_compile_v1 truth loops: `to_seq <= from_seq` alone (S9) or also the
+    # checkpoint frame's own seq (`event.seq > from_seq` skipped).  Both loops must agree, else never guess.
+    fn_body = fn_body0
     rule = None
     bodies = [fn_body(co, "latest_compaction_checkpoint_for_compile_v1"), fn_body(co, "hierarchical_compaction_checkpoints_for_compile_v1")]
     if any(b is None for b in bodies):
@@ -110,19 +151,24 @@ def main():
     os.makedirs(a.out, exist_ok=True)
     with open(os.path.join(a.out, "CompileConsts.v"), "w") as f:
         f.write("(* GENERATED by tools/gen/compile_consts.py from crates/ripd/src/{context_compiler,session,continuities}.rs — do not edit *)\n")
-        f.write("From RipV Require Import Base.Prelude.\n")
+        f.write("From RipV Require Import Base.Prelude Model.Compile.\n")
         for n in notes:
             f.write("(* note: %s *)\n" % n.replace("*)", "* )"))
         f.write("Definition gen_recent_limit : N := %d.\n" % (limit or 0))
         f.write("Definition gen_max_refs : N := %d.\n" % (refs or 0))
         f.write("(* true: a checkpoint frame is visible only when its own seq is at or before the cut; false: `to_seq <= cut` alone (S9) *)\n")
         f.write("Definition gen_ckpt_frame_rule : bool := %s.\n" % ("true" if rule else "false"))
+        f.write("(* what `let message_count = ...` of the tail path counts; an unknown expression is reported through gen_ok_compile_consts *)\n")
+        f.write("Definition gen_tail_count : tail_count := %s.\n" % (tail_count or "CountAll"))
         f.write("Definition gen_ok_compile_consts : bool := %s.\n" % ("true" if ok else "false"))
         f.write("Lemma gen_compile_consts_ok : gen_ok_compile_consts && (0 <? gen_recent_limit) && (0 <? gen_max_refs) = true.\n")
         f.write("Proof. vm_compute. reflexivity. Qed.\n")
+        f.write("(* the hypothesis of c08_tail_path_rule_agrees, for the rule the source uses *)\n")
+        f.write("Lemma gen_tail_count_ok : tail_count_sound gen_tail_count = true.\n")
+        f.write("Proof. vm_compute. reflexivity. Qed.\n")
     for n in notes:
         print("note:", n)
-    print("compile_consts: limit=%s max_refs=%s frame_rule=%s ok=%s" % (limit, refs, rule, ok))
+    print("compile_consts: limit=%s max_refs=%s frame_rule=%s tail_count=%s ok=%s" % (limit, refs, rule, tail_count, ok))
     return 0
 
 
